@@ -57,6 +57,20 @@ def clean_rel(rel):
 class World(object):
     """Scratch tree + model of it + application under test."""
 
+    def spelled(self, r):
+        """The search directory as the program spells it: the same directory, written another way."""
+        rd = self.rootdir[r]
+        how = (self.cfg.get('root_spelling') or {}).get(r)
+        if how == 'dotdot':
+            return os.path.join(os.path.dirname(rd), os.path.basename(rd), os.pardir, os.path.basename(rd))
+        if how == 'trailing-slash':
+            return rd + os.sep
+        if how == 'dot':
+            return os.path.join(os.path.dirname(rd), os.curdir, os.path.basename(rd))
+        if how == 'double-slash':
+            return os.path.dirname(rd) + os.sep + os.sep + os.path.basename(rd)
+        return rd
+
     def __init__(self, cfg):
         self.cfg = cfg
         self.base = tempfile.mkdtemp(prefix='simfs-', dir=SCRATCH)
@@ -94,7 +108,7 @@ class World(object):
     def build_app(self):
         entries = []
         for roots in self.cfg['apps']:
-            sapp = StaticApplication([self.rootdir[r] for r in roots])
+            sapp = StaticApplication([self.spelled(r) for r in roots])
             entries.append((self.cfg['prefix'], sapp))
         return Application(entries, slash_mode=self.cfg.get('slash', 'redirect'))
 
@@ -102,6 +116,7 @@ class World(object):
         return [r for roots in self.cfg['apps'] for r in roots]
 
     def app_index_of_path(self, path):
+        path = os.path.normpath(path)        # the program may have spelled its search directory differently
         for ai, roots in enumerate(self.cfg['apps']):
             for r in roots:
                 if path.startswith(self.rootdir[r] + os.sep):
@@ -119,6 +134,7 @@ class World(object):
         return out
 
     def vanish(self, path):
+        path = os.path.normpath(path)
         if os.path.isfile(path) and path.startswith(self.area + os.sep):
             st = os.stat(path)
             with open(path, 'rb') as f:
@@ -251,6 +267,7 @@ class C14(Check):
         return {'roots': roots, 'apps': apps, 'prefix': rng.choice(['/s/', '/s', '/', '/static/deep/']),
                 'slash': rng.choice(['redirect', 'redirect', 'rewrite', 'strict']),
                 'ghost': ghost if ghost_ok else None,
+                'root_spelling': dict((r, rng.choice(['dotdot', 'dotdot', 'trailing-slash', 'dot', 'double-slash'])) for r in rnames if rng.random() < 0.3),
                 # the server's time zone (POSIX TZ strings: no zone database needed), several with daylight saving
                 'tz': rng.choice([None, None, 'UTC', 'CET-1CEST,M3.5.0,M10.5.0/3', 'EST5EDT,M3.2.0,M11.1.0',
                                   'NZST-12NZDT,M9.5.0,M4.1.0/3', 'IST-5:30', 'XXX+11'])}
